@@ -190,11 +190,28 @@ def merged_order(n_static, n_stmt, order):
     return res
 
 
+TAL_URI = "http://xml.zope.org/namespaces/tal"
+
+
 def _elem_src(out, el, spelling):
+    """``spelling`` (optional) re-spells the statements without changing
+    their meaning: {"prefix": other prefix bound to the TAL namespace,
+    "decl": "self" (xmlns declaration on every element that uses it; with
+    "root" the caller declares it on an ancestor), "data": bit mask - which
+    statements of an element are written data-<prefix>-<name>}."""
+    sp = spelling or {}
+    prefix = sp.get("prefix", "tal")
     ns = el.get("ns")
-    name = ("tal:" + el["name"]) if ns else el["name"]
+    name = (prefix + ":" + el["name"]) if ns else el["name"]
     out.add("<" + name)
     stmts = stmt_items(el)
+    out.elem_counter = getattr(out, "elem_counter", 0) + 1
+    # (data- attributes are an alternative for ordinary elements; on an
+    # element of the tal namespace unprefixed attributes already are TAL)
+    mask = 0 if ns else sp.get("data", 0) >> (out.elem_counter % 5)
+    if sp.get("decl") == "self" and (stmts or ns):
+        q = '"' if out.elem_counter % 2 else "'"
+        out.add(" xmlns:%s=%s%s%s" % (prefix, q, TAL_URI, q))
     layout = merged_order(len(el["attrs"]), len(stmts), el.get("order") or [])
     for kind, idx in layout:
         if kind == "a":
@@ -206,7 +223,12 @@ def _elem_src(out, el, spelling):
         else:
             sname, val = stmts[idx]
             quote = el.get("squote", '"')
-            pre = "" if (ns and el.get("ns_bare")) else "tal:"
+            if ns and el.get("ns_bare"):
+                pre = ""
+            elif (mask >> idx) & 1:
+                pre = "data-" + prefix + "-"
+            else:
+                pre = prefix + ":"
             out.add(" " + pre + sname + "=" + quote)
             stmt_value(out, sname, val, quote)
             out.add(quote)
@@ -217,6 +239,7 @@ def _elem_src(out, el, spelling):
     out.add(cs + ">")
     serialize(el["children"], out, spelling)
     out.add("</" + name + ">")
+
 
 
 # ==========================================================================
